@@ -140,6 +140,14 @@ Theorem C06_walk_fuel_depth :
 Proof. exact walk_fuel_depth. Qed.
 Print Assumptions C06_walk_fuel_depth.
 
+(* every run that answers has such a d: a run with fuel f cannot nest more than f calls, so started at call
+   depth 0 the walker capped at f is the walker.  ([e_capped] is the instrument's own marker: the hypothesis
+   excludes a run of the plain walker that ends in an error with exactly that text.) *)
+Theorem C06_answer_has_depth :
+  forall cf f n st, depth_ st = 0%nat -> is_answer (fst (walk cf f n st)) -> run_depth_le cf f n st.
+Proof. exact walk_answer_has_depth. Qed.
+Print Assumptions C06_answer_has_depth.
+
 (* the three facts behind it.  (a) the budget pays for every run that stays within d nested calls:
    started at call depth k <= d with tree_height n + reg_height * (d - k) fuel, the capped walker ends at
    call depth k and never in a crash, a divergence or fuel exhaustion *)
